@@ -1,5 +1,7 @@
 import HexProps.C03
+import HexProps.C07
 import HexProps.C11
 import HexProps.C12
 import HexProps.C15
 import HexProps.C18
+import HexProps.C20
